@@ -102,12 +102,16 @@ def twin_events(ref, h):
     compare == to what is stored but are different JSON values.  A built-in container stores them; a merge that
     skips 'equal' entries silently keeps the old ones."""
     node = ref.node(h)
+    ev = []
     tw = model.twin(node)
-    if model.exact_eq(tw, node):
-        return []
-    ev = [("op", h, "reset", (tw,))]
-    if isinstance(node, dict):
-        ev.append(("op", h, "update", (tw, {})))
+    if not model.exact_eq(tw, node):
+        ev.append(("op", h, "reset", (tw,)))
+        if isinstance(node, dict):
+            ev.append(("op", h, "update", (tw, {})))
+    # ... and with DIFFERENT values of the same types at every leaf (what a merge sees when only values changed)
+    sh = model.shifted(node)
+    if not model.exact_eq(sh, node):
+        ev.append(("op", h, "reset", (sh,)))
     return ev
 
 
